@@ -93,11 +93,24 @@ def _work(args):
             if (gate or res.get('violations')) and not res.get('nogate'):
                 res2 = _MOD.run_case(case) or {}
                 if _strip(res) != _strip(res2):
-                    out['harness'].append(
-                        'nondeterministic case %s:\n  %s\n  %s'
-                        % (canon(case)[:2000], _strip(res)[:2000],
-                           _strip(res2)[:2000]))
-                    continue
+                    if res.get('violations') or res2.get('violations'):
+                        # the same case judged differently the second time in
+                        # the same process: what ran before leaks into the
+                        # result.  Never seen on the unchanged tree (the gate
+                        # would stop the run); after a change to the code it is
+                        # a defect of that change, reported with the
+                        # violations either execution produced.
+                        vs = list(res.get('violations') or ()) + list(res2.get('violations') or ())
+                        res = dict(res, violations=[
+                            dict(v, sig=dict(v.get('sig') or {}, history_dependent=True),
+                                 detail='(the same case gave a different result when executed a second time in the same process)\n' + str(v.get('detail') or ''))
+                            for v in vs])
+                    else:
+                        out['harness'].append(
+                            'nondeterministic case %s:\n  %s\n  %s'
+                            % (canon(case)[:2000], _strip(res)[:2000],
+                               _strip(res2)[:2000]))
+                        continue
         except Exception as e:
             tb = traceback.extract_tb(e.__traceback__)
             if tb and tb[-1].filename.startswith(env.REPO_SRC):
